@@ -88,6 +88,14 @@ impl Env {
     pub fn from_store(store: Store) -> Self {
         Self::new(World::from_stores(vec![store]).shared())
     }
+    /// a new independent world holding `store`, with the same key and options
+    pub fn fork(&self, store: Store) -> Self {
+        let mut e = Self::new(World::from_stores(vec![store]).shared());
+        e.key = self.key.clone();
+        e.raw = self.raw.clone();
+        e.opts = self.opts.clone();
+        e
+    }
     pub fn hotcold() -> Self {
         let mut e = Self::new(World::new(2).shared());
         e.hot = Some(1);
